@@ -70,14 +70,18 @@ def run_wl(name, name2, role, traced, k=0, fail_log_at=(), fail_flush=False, pro
     T.JOURNAL.clear()
     T.RAISE[0] = raising
     buf = io.StringIO()
+    errbuf = io.StringIO()
     res = exc = None
     lg = FaultLogger(fail_log_at, fail_flush)
+    # the program's own logging set-up: the root logger (unconfigured, as in a program that has not called basicConfig yet)
+    root = logging.getLogger()
+    root_before = (list(root.handlers), root.level, root.disabled, logging.root.manager.disable)
     path = WL.__file__
     flt = lambda c: c.co_filename == path and c.co_name != "workload"
     sys.setprofile(_harness_profiler if profiler else None)
     prev = sys.getprofile()
     try:
-        with contextlib.redirect_stdout(buf):
+        with contextlib.redirect_stdout(buf), contextlib.redirect_stderr(errbuf):
             try:
                 if traced:
                     with trace_calls(lg, k, flt):
@@ -91,10 +95,14 @@ def run_wl(name, name2, role, traced, k=0, fail_log_at=(), fail_flush=False, pro
             except Exception as e:
                 exc = (type(e).__name__, str(e))
         after = sys.getprofile()
+        root_after = (list(root.handlers), root.level, root.disabled, logging.root.manager.disable)
     finally:
         sys.setprofile(None)
         T.RAISE[0] = False
-    return dict(res=repr(res) if not raising else str(type(res)), exc=exc, out=buf.getvalue(), journal=list(T.JOURNAL),
+        root.handlers[:] = root_before[0]
+        root.setLevel(root_before[1])
+    return dict(res=repr(res) if not raising else str(type(res)), exc=exc, out=buf.getvalue(), err=errbuf.getvalue(), journal=list(T.JOURNAL),
+                logcfg=None if root_after == root_before else f"root logger handlers/level/disabled {root_before} -> {root_after}",
                 restored=after is prev, flushes=lg.flushes, ntraces=len(lg.traces), nlog=lg.n)
 
 
@@ -130,6 +138,10 @@ def compare(ctx, spec, a, b, role, faults=False, name=None):
         ctx.fail(classify(e, role, name), spec, f"tracing ran user hook {e} x{extra[e]} on a program object (role {role})", raise_=False)
     if missing:
         ctx.fail("C03/behaviour-differs", spec, f"hooks the program runs untraced are missing when traced: {dict(missing)}", raise_=False)
+    if a.get("err") != b.get("err"):
+        ctx.fail("C03/behaviour-differs", spec, f"stderr differs: untraced {a.get('err')!r}; traced {b.get('err')!r}", raise_=False)
+    if b.get("logcfg"):
+        ctx.fail("C03/program-logging-configuration-changed", spec, b["logcfg"], raise_=False)
     if not b["restored"]:
         ctx.fail("C03/profiler-not-restored", spec, "sys.getprofile() after the tracing block is not the profiler installed before it", raise_=False)
     if b["flushes"] != 1:
